@@ -79,6 +79,7 @@ X = [
     "para *e* [l](http://u)\n", "- a\n- b\n", "1. a\n2. b\n", "> q\n", "```py\ncode\n```\n", "    ind\n", "|a|b|\n|-|-|\n|1|2|\n", "***\n", "<div>h</div>\n",
     "$$m$$\n", "(t)=\npara t\n", "x[^f]\n\n[^f]: foot\n", "[r]: http://u\n\n[a][r]\n", "```{tip}\ninner\n```\n", "{abbr}`x (y)`\n", "% c\n", "+++\n",
     "Term\n: def\n", ":f: v\n", "{nosuchrole}`x`\n", "```{nodir}\n```\n", ":::{tip}\ncolon inner\n:::\n", "- [ ] task\n\n  para in item\n",
+    "line one  \nline two\n", "```\ncode with trailing blanks  \n\n```\n", "    indented code  \n", "> quoted  \n> second\n",
     "\ttab indented code\n", "```\na\tb\n```\n", "- li\n\n\ttab continuation\n", "para with\ttab\n",
 ]
 
@@ -163,7 +164,7 @@ class TransparencySystem(System):
         for name, text, sel, subs, first_must_be_plain in wrap.make(x):
             if first_must_be_plain and (x.startswith(":") or x.startswith("---")):
                 continue
-            if name == "subst" and ("{{" in x or "{%" in x or "    ind" in x or "\t" in x):
+            if name == "subst" and ("{{" in x or "{%" in x or "    ind" in x or "\t" in x or "  \n" in x):
                 continue
             n += 1
             try:
